@@ -119,7 +119,23 @@ func jsonLeafMutations(doc []byte) (names []string, docs [][]byte) {
 		}
 		return x
 	}
+	nullAlts := []interface{}{"x", []interface{}{}, map[string]interface{}{}, json.Number("1"), true,
+		[]interface{}{map[string]interface{}{"address": "0x0000000000000000000000000000000000000001", "storageKeys": []interface{}{}}}}
+	type leafAlt struct {
+		p   path
+		alt int // -1 = default mutation
+	}
+	var work []leafAlt
 	for _, p := range leaves {
+		work = append(work, leafAlt{p, -1})
+		if isNullAt(v, p) {
+			for a := 1; a < len(nullAlts); a++ {
+				work = append(work, leafAlt{p, a})
+			}
+		}
+	}
+	for _, wk := range work {
+		p := wk.p
 		// deep copy via re-decode
 		var c interface{}
 		d2 := json.NewDecoder(bytes.NewReader(doc))
@@ -128,6 +144,9 @@ func jsonLeafMutations(doc []byte) (names []string, docs [][]byte) {
 		var set func(x interface{}, p path) interface{}
 		set = func(x interface{}, p path) interface{} {
 			if len(p) == 0 {
+				if wk.alt >= 0 {
+					return nullAlts[wk.alt]
+				}
 				return mutate(x)
 			}
 			switch t := x.(type) {
@@ -149,10 +168,27 @@ func jsonLeafMutations(doc []byte) (names []string, docs [][]byte) {
 		for _, e := range p {
 			name += fmt.Sprintf(".%v", e)
 		}
+		if wk.alt >= 0 {
+			name += fmt.Sprintf("=null-alt%d", wk.alt)
+		}
 		names = append(names, name)
 		docs = append(docs, b)
 	}
 	return
+}
+
+func isNullAt(v interface{}, p []interface{}) bool {
+	for _, e := range p {
+		switch t := v.(type) {
+		case map[string]interface{}:
+			v = t[e.(string)]
+		case []interface{}:
+			v = t[e.(int)]
+		default:
+			return false
+		}
+	}
+	return v == nil
 }
 
 var c04Types = []action.Type{action.SEND, action.SENDPOOL, action.STAKE, action.UNSTAKE, action.WITHDRAW,
@@ -239,6 +275,12 @@ func mutants(t *harness.TxSpec, w *harness.World) []mutant {
 		add(fmt.Sprintf("sig[%d]:attacker-key-and-signature", i), func(c *action.SignedTx) {
 			c.Signatures[i] = action.Signature{Signer: attacker.Pub, Signed: attacker.Sign(rawMsg)}
 		})
+		if t.SignFn != nil {
+			// sender-recovery signatures (OLVM): the Signer key field is not what authenticates the
+			// transaction, so changing only that field leaves an authentically signed, untampered
+			// transaction; it is an altered unsigned field, i.e. a re-encoding (enumerated by C05)
+			continue
+		}
 		add(fmt.Sprintf("sig[%d]:attacker-key-only", i), func(c *action.SignedTx) { c.Signatures[i].Signer = attacker.Pub })
 		for _, alg := range []keys.Algorithm{keys.ED25519, keys.SECP256K1, keys.ETHSECP, keys.BTCECSECP} {
 			if alg == orig.Signatures[i].Signer.KeyType {
